@@ -319,6 +319,19 @@ func connEdit(name string, pool []string) entry {
 	}}
 }
 
+func mirrorPriv(name, form string) entry {
+	return entry{name: name, scope: "log", targets: mirrors, apply: func(t *rapid.T, c *ValCase, i int) {
+		pool := "p256-0"
+		if c.Logs[i].Pub != nil {
+			pool = c.Logs[i].Pub.Pool
+		}
+		c.Logs[i].Priv = &RawPriv{Pool: pool, Form: form}
+		if form == "pem-file" {
+			c.Logs[i].Priv.Path = rapid.SampledFrom(pemPaths).Draw(t, "mirror-pem")
+		}
+	}}
+}
+
 func privEdit(name, form string) entry {
 	return entry{name: name, scope: "log", targets: nonMirror, apply: func(t *rapid.T, c *ValCase, i int) {
 		if c.Logs[i].Priv == nil {
@@ -335,13 +348,12 @@ var invalidCatalogue = []entry{
 	privEdit("privkey-unknown-type", "unknown-type"),
 	privEdit("privkey-undecodable", "bad-value"),
 	privEdit("privkey-empty-any", "empty-any"),
-	{name: "privkey-on-mirror", scope: "log", targets: mirrors, apply: func(t *rapid.T, c *ValCase, i int) {
-		pool := "p256-0"
-		if c.Logs[i].Pub != nil {
-			pool = c.Logs[i].Pub.Pool
-		}
-		c.Logs[i].Priv = &RawPriv{Pool: pool, Form: "der"}
-	}},
+	// "mirror: public key only" - a private_key field of ANY shape is superfluous on a mirror
+	mirrorPriv("privkey-on-mirror", "der"),
+	mirrorPriv("privkey-file-on-mirror", "pem-file"),
+	mirrorPriv("privkey-empty-any-on-mirror", "empty-any"),
+	mirrorPriv("privkey-unknown-type-on-mirror", "unknown-type"),
+	mirrorPriv("privkey-undecodable-on-mirror", "bad-value"),
 	{name: "pubkey-missing-mirror", scope: "log", targets: mirrors, apply: func(t *rapid.T, c *ValCase, i int) { c.Logs[i].Pub = nil }},
 	{name: "pubkey-unparsable", scope: "log", targets: allLogs, apply: func(t *rapid.T, c *ValCase, i int) {
 		l := &c.Logs[i]
